@@ -2,6 +2,7 @@ import Driver.Wire
 import FixModel.Spec.Codec
 import FixModel.SessionBridge
 import FixModel.Pool
+import FixModel.Framing
 import Std.Data.HashMap
 /-!
 # fixdriver — one operation per input line, one result per output line
@@ -63,6 +64,12 @@ def stepLine (line : String) : String :=
             | some v => "some " ++ dBytes v
             | none => "none")) args
       | "pool" => poolOp args
+      | "frame" =>
+        match args.mapM (fun a => match a.toList with | 'x' :: r => unhexAux r [] | _ => none) with
+        | none => none
+        | some chunks =>
+          let r := feedChunks RState.idle chunks
+          some ("msg" ++ String.join (r.2.map fun m => " " ++ dBytes m) ++ " | rest " ++ dBytes (r.1.msg ++ r.1.seg))
       | _ => none
     r.getD "bad-op"
 
